@@ -1,7 +1,7 @@
 (* C11 driver.  One history per line:
      seq <step> <step> ...
    steps:  F:<caps>:<ord>  R:<ord>  S:<path>:<g>  V:<path>:<g>  C:<path>:<slot>  K:<slot>:<g>
-           Q:<slot>:<g>  L  W  U:<n>
+           Q:<slot>:<g>  L  W  U:<n>  Z (owner waits for Done, then releases the result)
    path = e | f.f.f ; caps = - | path=k,path=k ; ord = - | path,path ; g = 0|1
    The i-th step launches thread i; after each launch all launched threads run to quiescence
    (lowest enabled first).  Output: per step "i:" + completions cJ=<outcome> and deliveries
@@ -17,7 +17,7 @@ let () =
   let a = Array.to_list Sys.argv in
   let rec go = function
     | "-variant" :: v :: r ->
-      variant := (match v with "asfound" -> as_found | "f11fixed" -> f11_fixed | _ -> fixed); go r
+      variant := (match v with "asfound" -> as_found | "f11fixed" -> f11_fixed | "latefixed" -> late_fixed | _ -> fixed); go r
     | _ :: r -> go r
     | [] -> () in
   go a
@@ -41,6 +41,7 @@ let op_of (s : string) : op =
   | [("K" | "Q"); s; g] -> OCall (z_of_int (int_of_string s), g_of g)
   | ["L"] -> ORelease
   | ["W"] -> OWait
+  | ["Z"] -> OConsume
   | ["U"; n] -> OUngate (nat_of_int (int_of_string n))
   | _ -> failwith ("bad step " ^ s)
 
